@@ -22,6 +22,7 @@ Per generated score (built through the public score API from a JSON spec):
 import io
 import json
 import os
+import random
 import sys
 import warnings
 from fractions import Fraction
@@ -72,6 +73,7 @@ W = {
     "tupletpair": 0.35,   # of the parts with tuplets: two tuplets open together (nested or overlapping) over notes of ANY voices,
                           # so that a tuplet stop can be written before its start
     # constructs that hit a KNOWN FINDING (kept rare; see findings.d/C03.json)
+    "variants": 0.3,      # of the parts with directions: 2-3 more words directions from ONE family of case / whitespace / prefix variants
     "k_words": 0.04,      # K1: an unparsed text direction (score.Words) is not exported
     "nopoint": 0.3,       # of the parts: voice 1 is NOT forced to start a note at a mid-measure divisions change, so the
                           # change can fall at a time without a TimePoint (was known finding K2, repaired 83f0338)
@@ -99,6 +101,34 @@ WORDS = ["cresc.", "dim.", "rit.", "accel.", "Allegro", "adagio", "dolce", "a te
          "Andante", "rall.", "smorzando", "a tempo, dolce", "Presto", "rubato", "rinforzando", "piu f", "tenuto",
          "Allegro ma non troppo", "calando"]
 DASHABLE = ("cresc.", "dim.", "rit.", "accel.", "rall.", "smorzando", "calando", "molto cresc.", "poco a poco cresc.")
+# Families of texts that differ only in CASE, in inner / outer WHITESPACE, or are PREFIXES of each other: whatever the library
+# keeps between two parses (a memo keyed by a normalised text, a prefix table) shows when two members of one family meet in
+# one score, in two scores of one process, or in two files loaded one after the other.  Every observation is judged against
+# the text the CURRENT score states.  (The parser drops outer whitespace of the text it is given: `text_pieces`.)
+TEXT_FAMILIES = [
+    ["Allegro", "allegro", "ALLEGRO", "allegro ", " Allegro", "Allegro molto", "allegro molto", "allegro  molto",
+     "Allegro ma non troppo", "allegro ma non troppo", "ALLEGRO MA NON TROPPO"],
+    ["cresc.", "Cresc.", "CRESC.", "cresc", "cresc. ", "molto cresc.", "Molto cresc.", "molto Cresc.", "poco a poco cresc.",
+     "Poco a poco cresc."],
+    ["dim.", "Dim.", "DIM.", "dim"],
+    ["rit.", "Rit.", "RIT.", "rit"],
+    ["a tempo", "A tempo", "A Tempo", "a tempo, dolce", "A tempo, Dolce", "a tempo, Dolce", "dolce", "Dolce", "DOLCE"],
+    ["P", "F", "piu f", "Piu f", "Piu F", "forte", "Forte", "piano", "Piano"],
+    ["adagio", "Adagio", "ADAGIO", "Andante", "andante"],
+    ["tempo I", "Tempo I", "tempo i", "Presto", "presto", "PRESTO"],
+    ["legato", "Legato", "staccato", "Staccato", "tenuto", "Tenuto"],
+]
+DASHABLE_L = frozenset(x.lower() for x in DASHABLE) | {"cresc", "dim"}
+
+
+def is_dashable(text):
+    return text.strip().lower() in DASHABLE_L
+
+
+def text_pieces(text):
+    """the texts a words direction built from `text` states, by the SPEC alone: one direction per comma-separated piece,
+    outer whitespace not part of it"""
+    return [x.strip() for x in text.split(",")]
 SYMTYPES = ["whole", "half", "quarter", "eighth", "16th", "32nd"]
 TAGORDER = {"barline": 0, "attributes": 1, "direction": 2, "print": 3, "sound": 4, "harmony": 5}
 BARLINE_TAG = {"left": -3, "middle": -2, "right": -1}
@@ -529,9 +559,11 @@ def decorate_part(rng, ids, part, segments):
                     objs.append({"k": "dir", "kind": rng.choice(["wedge_c", "wedge_d"]), "t": t, "e": e})
             elif r < 0.85:
                 o = {"k": "dir", "kind": "words", "t": t, "text": rng.choice(WORDS)}
+                if rng.random() < 0.35:
+                    o["text"] = rng.choice(rng.choice(TEXT_FAMILIES))
                 if rng.random() < W["k_words"]:
                     o["text"] = "spaghetti"
-                if rng.random() < 0.4 and o["text"] in DASHABLE:
+                if rng.random() < 0.4 and is_dashable(o["text"]):
                     e = rng.randint(t + 1, end)      # dashes (only for dynamic directions)
                     if free(t, e):
                         ranges.append((t, e))
@@ -540,6 +572,10 @@ def decorate_part(rng, ids, part, segments):
             elif t not in tempos:
                 tempos.add(t)
                 objs.append({"k": "tempo", "t": t, "bpm": rng.choice([60, 72, 96, 120, 144])})
+        if rng.random() < W["variants"]:
+            fam = rng.choice(TEXT_FAMILIES)
+            for text in rng.sample(fam, min(len(fam), rng.randint(2, 3))):
+                objs.append({"k": "dir", "kind": "words", "t": rng.randrange(0, end), "text": text})
     if rng.random() < W["sigs"]:
         for _ in range(rng.randint(1, 2)):
             # at a barline, or mid-measure
@@ -683,6 +719,13 @@ def build_part(ps, kinds=None):
                     p.add(d, T(o["t"]), T(o["e"]))
                 else:
                     ds = parse_direction(o["text"])
+                    pieces = text_pieces(o["text"])
+                    if len(ds) == len(pieces):
+                        # the score states the text of the SPEC (public attribute), whatever the parser remembers of
+                        # texts it saw before; class and normalised text are the parser's
+                        for d, piece in zip(ds, pieces):
+                            if isinstance(d, S.Direction):
+                                d.raw_text = piece
                     for d in ds:
                         if isinstance(d, S.DynamicDirection) and o.get("e") is not None and len(ds) == 1:
                             p.add(d, T(o["t"]), T(o["e"]))
@@ -1517,12 +1560,15 @@ def struct_without(struct, i):
     return out
 
 
-def shrink(spec, kind, text=""):
-    """ddmin over parts, then over the objects of each part, keeping a failure with the same signature."""
+def shrink(spec, kind, text="", check=None):
+    """ddmin over parts, then over the objects of each part, keeping a failure with the same signature.
+    check: spec -> [(kind, text, ...)] evaluated elsewhere (a fresh interpreter state) instead of in this process."""
     sig = signature(kind, text)
 
     def fails(sp):
         try:
+            if check is not None:
+                return any(signature(p[0], p[1]) == sig for p in check(sp))
             o = check_spec(sp, want_coq=False)
         except Exception:
             return False
@@ -1636,6 +1682,13 @@ def edit_spec(spec, op):
             return False
         o[op["field"]] = op["value"]
         return True
+    if kind == "dir_text":
+        o = next((x for x in ps["objs"] if x["k"] == "dir" and x.get("kind") == "words" and x["t"] == op["t"] and x["text"] == op["old"]), None)
+        if o is None or "," in op["old"] or sum(1 for x in ps["objs"] if x["k"] == "dir" and x.get("kind") == "words" and x["t"] == op["t"]
+                                                for pc in text_pieces(x["text"]) if pc == text_pieces(op["old"])[0]) != 1:
+            return False
+        o["text"] = op["new"]
+        return True
     if kind == "divs":
         if op["t"] == 0:
             ps["q0"] = op["q"]
@@ -1732,6 +1785,14 @@ def edit_live(scr, op, S):
             return False
         setattr(o, OBJ_FIELDS[op["k"]][op["field"]], op["value"])
         return True
+    if kind == "dir_text":
+        # the spelling of a text direction is rewritten in place (case variant: class and normalised text stay)
+        want = text_pieces(op["old"])[0]
+        ds = [d for d in part.iter_all(S.Direction, include_subclasses=True) if d.start.t == op["t"] and d.raw_text == want]
+        if len(ds) != 1:
+            return False
+        ds[0].raw_text = text_pieces(op["new"])[0]
+        return True
     if kind == "divs":
         part.set_quarter_duration(op["t"], op["q"])
         return True
@@ -1749,6 +1810,14 @@ def gen_edit(rng, spec, ids, adopted=False):
     ps = spec["parts"][pi]
     free = free_notes(ps)
     r = rng.random()
+    wd = [o for o in ps["objs"] if o["k"] == "dir" and o.get("kind") == "words" and "," not in o["text"] and o["text"] != "spaghetti"]
+    if wd and rng.random() < 0.3:
+        o = rng.choice(wd)
+        base = o["text"].strip()
+        alts = [x for x in (base.lower(), base.upper(), base.capitalize(), base.title()) if x != base and x.lower() == base.lower()]
+        same = [x for x in ps["objs"] if x["k"] == "dir" and x.get("kind") == "words" and x["t"] == o["t"]]
+        if alts and len(same) == 1:
+            return {"op": "dir_text", "part": pi, "t": o["t"], "old": o["text"], "new": rng.choice(sorted(set(alts)))}
     if r < 0.16 and free:
         o = rng.choice(free)
         seg = segment_of(ps, o["t"])
@@ -1839,6 +1908,13 @@ def gen_history(rng):
             if rng.random() < 0.3:
                 sp["kinds"] = rng.choice(["np64", "np32", "fbpm", "ftime"])
             specs[name] = sp
+        if rng.random() < 0.7:
+            # the two scores of the history state texts of ONE family (case / whitespace / prefix variants of each other)
+            fam = rng.choice(TEXT_FAMILIES)
+            for name in ("A", "B"):
+                ps = rng.choice(specs[name]["parts"])
+                for text in rng.sample(fam, rng.randint(1, 2)):
+                    ps["objs"].append({"k": "dir", "kind": "words", "t": rng.randrange(0, ps["end"]), "text": text})
         sim = {k: json.loads(json.dumps(v)) for k, v in specs.items()}
         ops = [{"on": "A", "op": "save"}, {"on": "B", "op": "save_light"}] if rng.random() < 0.5 else \
               [{"on": "B", "op": "save"}, {"on": "A", "op": "save_light"}]
@@ -2231,7 +2307,23 @@ def history_stream(ctx, n, hcases):
                 shrink_cpu += time.process_time() - t0
                 p2 = run_history(small)
                 k2, txt2, st2 = next(((kk, t, st) for kk, t, st in p2 if hist_signature(kk, t) == hist_signature(k, txt)), (k, txt, step))
-                r = ctx.violation("history (%d ops, failing at step %d): %s: %s" % (len(small["ops"]), st2, k2, txt2),
+                note = ""
+                if nviol < 3:
+                    fr = None
+                    try:
+                        fr = Fresh()
+                        if not any(hist_signature(a, b) == hist_signature(k, txt) for a, b, _ in fr.ask({"hist": small})):
+                            if any(hist_signature(a, b) == hist_signature(k, txt) for a, b, _ in fr.ask({"hist": hist})):
+                                small, note = hist, " [not shrunk: only the whole history reproduces from a fresh interpreter state]"
+                            else:
+                                note = (" [NOT reproduced by this history alone in a fresh interpreter: it depends on what ran earlier in "
+                                        "the checking process (state kept at module level); the sequence replays give such orders]")
+                    except Exception as ex:
+                        note = " [fresh-interpreter confirmation not available: %r]" % (ex,)
+                    finally:
+                        if fr is not None:
+                            fr.close()
+                r = ctx.violation("history (%d ops, failing at step %d): %s: %s%s" % (len(small["ops"]), st2, k2, txt2, note),
                                   {"kind": "history", "what": "%s: %s" % (k2, txt2), "history": small})
                 if r != "known":
                     nviol += 1
@@ -2239,6 +2331,271 @@ def history_stream(ctx, n, hcases):
 
 
 # ---------------------------------------------------------------------------------------------
+
+
+# ---------------------------------------------------------------------------------------------
+# SEQUENCES: several small scores through one process, texts drawn from one family of case / whitespace / prefix variants.
+# What the library keeps at MODULE level between two parses (a memo of parse results, a table filled on the way) shows as a
+# later score / file coming back with what an earlier one said.  Every observation is judged against the spec of the score
+# at hand (check_spec: O1-O3).  Failures are shrunk in a FRESH interpreter state per candidate (fork of a server that has
+# imported the library and never called it), because in the checking process the state is already filled.
+
+
+def gen_sequence(rng):
+    fam = rng.choice(TEXT_FAMILIES)
+    scores = []
+    for i in range(rng.randint(2, 4)):
+        nm = rng.randint(1, 2)
+        spec = simple_spec([(16 * m, 16 * (m + 1), 1) for m in range(nm)], q0=4, end=16 * nm,
+                           measures=[[16 * m, 16 * (m + 1), m + 1, str(m + 1)] for m in range(nm)])
+        pool = fam if rng.random() < 0.8 else fam + rng.choice(TEXT_FAMILIES)
+        objs = []
+        for text in rng.sample(pool, rng.randint(1, min(3, len(pool)))):
+            o = {"k": "dir", "kind": "words", "t": rng.choice([0, 4, 8, 12] + ([16, 24] if nm > 1 else [])), "text": text}
+            if is_dashable(text) and rng.random() < 0.3 and not any(x.get("e") for x in objs):
+                o["e"] = 16 * nm
+            objs.append(o)
+        if rng.random() < 0.3:
+            objs.append({"k": "dir", "kind": "dyn", "t": rng.choice([0, 8]), "text": rng.choice(["p", "f", "pp"])})
+        if rng.random() < 0.3:
+            objs.append({"k": "tempo", "t": 0, "bpm": rng.choice([60, 96, 120])})
+        scores.append(with_objs(spec, objs))
+    order = list(range(len(scores)))
+    rng.shuffle(order)
+    ops = [["rt", i] for i in order]
+    for _ in range(rng.randint(1, 3)):
+        ops.append([rng.choice(["rt", "load", "loadpath"]), rng.randrange(len(scores))])
+    return {"kind": "sequence", "scores": scores, "ops": ops}
+
+
+def ctext(t):
+    return clist([cz(ord(c)) for c in t])
+
+
+def text_obs(data, scr2):
+    """(texts of the <words> elements of a file in document order, raw texts of the directions load_musicxml made of it)"""
+    import lxml.etree as ET
+    import partitura.score as S
+    words = [w.text or "" for w in ET.fromstring(data).iter("words")]
+    raws = [d.raw_text for p in scr2.parts for d in p.iter_all(S.Direction, include_subclasses=True) if d.raw_text is not None]
+    return words, raws
+
+
+def run_sequence(seq, stop_at_first=True, collect=None):
+    """-> [(kind, text, step)].  rt: build / save / independent reader / load / fingerprint / save again (check_spec) on score i;
+    load, loadpath: the file score i was written to earlier in the sequence (written now when it was not) is loaded again from
+    memory / from a path and must give the score of spec i and the same bytes when saved."""
+    import tempfile
+    from partitura import save_musicxml, load_musicxml
+    probs, saved = [], {}
+    for st, (op, i) in enumerate(seq["ops"]):
+        if i >= len(seq["scores"]):
+            continue
+        spec = seq["scores"][i]
+        with warnings.catch_warnings():
+            warnings.simplefilter("ignore")
+            try:
+                if op == "rt":
+                    o = check_spec(spec, want_coq=False)
+                    for k, t in o.problems:
+                        if k != "build":
+                            probs.append((k, t, st))
+                    if o.data is not None:
+                        saved.setdefault(i, o.data)
+                        if collect is not None and o.loaded is not None:
+                            collect.append(text_obs(o.data, o.loaded))
+                else:
+                    scr = build(spec)
+                    if i not in saved:
+                        saved[i] = save_musicxml(scr)
+                    if op == "load":
+                        scr2 = load_musicxml(io.BytesIO(saved[i]))
+                    else:
+                        with tempfile.NamedTemporaryFile(suffix=".musicxml", delete=False) as f:
+                            f.write(saved[i])
+                        try:
+                            scr2 = load_musicxml(f.name)
+                        finally:
+                            os.unlink(f.name)
+                    if collect is not None:
+                        collect.append(text_obs(saved[i], scr2))
+                    for k, a, b in fp_diff(fingerprint(scr), fingerprint(scr2)):
+                        probs.append(("O2", "%s: the score states %r, the file written for it loads as %r" % (k, a, b), st))
+                    d2 = save_musicxml(scr2)
+                    if d2 != saved[i]:
+                        probs.append(("O3", "save(load(file)) differs from the file: " + bytes_diff(saved[i], d2), st))
+            except Exception as ex:
+                probs.append(("harness", "%s on score %d raised %s: %s" % (op, i, type(ex).__name__, ex), st))
+        if probs and stop_at_first:
+            break
+    return probs
+
+
+def seq_merge(seqs):
+    scores, ops = [], []
+    for q in seqs:
+        off = len(scores)
+        scores += q["scores"]
+        ops += [[op, i + off] for op, i in q["ops"]]
+    return {"kind": "sequence", "scores": scores, "ops": ops}
+
+
+def _fresh_server():
+    """child side of Fresh: imports the library, never calls it; every request runs in a fork of that state"""
+    import resource
+    core.setup_import_path()
+    import partitura  # noqa
+    import partitura.score  # noqa
+    sys.stdout.write("ready\n")
+    sys.stdout.flush()
+    for line in sys.stdin:
+        line = line.strip()
+        if not line:
+            continue
+        rfd, wfd = os.pipe()
+        pid = os.fork()
+        if pid == 0:
+            os.close(rfd)
+            try:
+                resource.setrlimit(resource.RLIMIT_CPU, (40, 40))   # CPU-time guard
+                req = json.loads(line)
+                if "seq" in req:
+                    out = json.dumps([list(f) for f in run_sequence(req["seq"])])
+                elif "hist" in req:
+                    out = json.dumps([list(f) for f in run_history(req["hist"], stop_at_first=False) if f[0] != "build"])
+                else:
+                    o = check_spec(req["spec"], want_coq=False)
+                    out = json.dumps([[k, t, 0] for k, t in o.problems if k != "build"])
+            except BaseException as e:   # noqa
+                out = json.dumps({"server_error": "%s: %s" % (type(e).__name__, e)})
+            with os.fdopen(wfd, "w") as w:
+                w.write(out)
+            os._exit(0)
+        os.close(wfd)
+        with os.fdopen(rfd) as r:
+            data = r.read()
+        os.waitpid(pid, 0)
+        sys.stdout.write((data or json.dumps({"server_error": "child died"})) + "\n")
+        sys.stdout.flush()
+
+
+class Fresh:
+    """run_sequence / check_spec in the module state right after import"""
+
+    def __init__(self):
+        import subprocess
+        hdir = os.path.dirname(os.path.dirname(os.path.abspath(__file__)))
+        code = "import sys; sys.path.insert(0, %r); import core; from props import c03; c03._fresh_server()" % hdir
+        self.p = subprocess.Popen([sys.executable, "-c", code], stdin=subprocess.PIPE, stdout=subprocess.PIPE,
+                                  stderr=subprocess.DEVNULL, text=True)
+        first = self.p.stdout.readline().strip()
+        if first != "ready":
+            raise RuntimeError("fresh interpreter did not start: %r" % first)
+        self.calls = 0
+
+    def ask(self, req):
+        self.calls += 1
+        self.p.stdin.write(json.dumps(req) + "\n")
+        self.p.stdin.flush()
+        out = json.loads(self.p.stdout.readline())
+        if isinstance(out, dict):
+            raise RuntimeError(out["server_error"])
+        return [tuple(f) for f in out]
+
+    def close(self):
+        try:
+            self.p.stdin.close()
+            self.p.wait(timeout=10)
+        except Exception:
+            self.p.kill()
+
+
+def shrink_sequence(seq, kind, text, earlier, fresh, max_calls=160):
+    """ddmin over the ops, then over the scores' objects, each candidate from a FRESH interpreter state.  When the sequence
+    alone does not fail from a fresh state the sequences that ran before it are put in front.  -> (sequence, problems, note)"""
+    sig = hist_signature(kind, text)
+    try:
+        for cand in [seq] + ([seq_merge(list(earlier) + [seq])] if earlier else []):
+            f0 = fresh.ask({"seq": cand})
+            if not any(hist_signature(k, t) == sig for k, t, _ in f0):
+                continue
+            start = fresh.calls
+
+            def fails(c):
+                if fresh.calls - start > max_calls:
+                    return False
+                try:
+                    return any(hist_signature(k, t) == sig for k, t, _ in fresh.ask({"seq": c}))
+                except Exception:
+                    return False
+            cur = cand
+            if len(cur["ops"]) > 1:
+                cur = dict(cur, ops=[list(o) for o in core.ddmin(cur["ops"], lambda sub: fails(dict(cur, ops=[list(o) for o in sub])))])
+            used = sorted({i for _, i in cur["ops"]})
+            cur = {"kind": "sequence", "scores": [cur["scores"][i] for i in used], "ops": [[op, used.index(i)] for op, i in cur["ops"]]}
+            for si in range(len(cur["scores"])):
+                objs = cur["scores"][si]["parts"][0]["objs"]
+                keep = [o for o in objs if o["k"] in ("ts", "note")]
+                rest = [o for o in objs if o["k"] not in ("ts", "note")]
+
+                def with_rest(sub, si=si, keep=keep):
+                    c = json.loads(json.dumps(cur))
+                    c["scores"][si]["parts"][0]["objs"] = keep + [dict(o) for o in sub]
+                    return c
+                if rest:
+                    if fails(with_rest([])):
+                        cur = with_rest([])
+                    elif len(rest) > 1:
+                        cur = with_rest(core.ddmin(rest, lambda sub: fails(with_rest(sub))))
+            return cur, fresh.ask({"seq": cur}) or f0, "shrunk in a fresh interpreter state per candidate"
+        return seq, None, ("NOT reproduced from a fresh interpreter state, alone or after the %d sequences before it: it depends "
+                           "on what else ran earlier in the checking process" % len(earlier))
+    except Exception as e:
+        return seq, None, "not shrunk: %r" % (e,)
+
+
+def sequence_stream(ctx, n, tcases=None):
+    rng = random.Random(ctx.seed * 7919 + 3)      # own stream: the one-shot stream drawn from ctx.rng stays as it is
+    seqs = [gen_sequence(rng) for _ in range(n)]
+    fresh, nviol, seen, done = None, 0, set(), []
+    try:
+        for q in seqs:
+            col = []
+            probs = run_sequence(q, collect=col)
+            if not probs and tcases is not None and col:
+                tcases.append((q, clist([ctuple([clist([ctext(t) for t in w]), clist([ctext(t) for t in r])]) for w, r in col])))
+            ctx.evaluations += 1
+            ctx.count("sequence:sequences")
+            ctx.count("sequence:scores", len(q["scores"]))
+            for op, _ in q["ops"]:
+                ctx.count("sequence:op_" + op)
+            texts = [o["text"] for sp in q["scores"] for o in sp["parts"][0]["objs"] if o["k"] == "dir" and o.get("kind") == "words"]
+            low = [" ".join(t.lower().split()) for t in texts]
+            if len(set(low)) < len(set(texts)):
+                ctx.count("sequence:with_texts_equal_up_to_case_or_whitespace")
+            if any(a != b and b.startswith(a) for a in set(low) for b in set(low)):
+                ctx.count("sequence:with_a_text_that_is_a_prefix_of_another")
+            ctx.nontrivial("seq:" + json.dumps(q, sort_keys=True))
+            for k, t, st in probs:
+                sg = hist_signature(k, t)
+                if sg in seen or nviol >= 4:
+                    continue
+                seen.add(sg)
+                fresh = fresh or Fresh()
+                small, f, note = shrink_sequence(q, k, t, done, fresh)
+                kk, tt, st2 = next(((a, b, c) for a, b, c in (f or []) if hist_signature(a, b) == sg), (k, t, st))
+                r = ctx.violation("sequence of %d score(s) in one process, step %d (%s score %d): %s: %s [%s]" % (
+                    len(small["scores"]), st2, small["ops"][st2][0] if st2 < len(small["ops"]) else "?",
+                    small["ops"][st2][1] if st2 < len(small["ops"]) else -1, kk, tt, note),
+                    {"kind": kk, "what": tt, "sequence": small})
+                if r != "known":
+                    nviol += 1
+            done.append(q)
+    finally:
+        if fresh is not None:
+            fresh.close()
+    ctx.log("phase: %d sequences of small scores with texts of one family (case / whitespace / prefix variants) done" % len(seqs))
+    return nviol
 
 
 def features_of(spec):
@@ -2409,11 +2766,14 @@ def run(ctx):
     ctx.assumptions = ["generated notes carry unique ids, positive voices and staves; no note crosses a barline or a change of divisions",
                        "voices are compared by O2 only for scores whose voices are sequential (otherwise the exporter must re-assign; the new voices are checked against the model)"]
     register_matchers(ctx)
-    ok, why = ctx.coq_props(expect_min=37)
+    ok, why = ctx.coq_props(expect_min=43)
     ctx.log("phase: Props/C03.v built and checked")
+    tcases = []
+    nviol_seq = sequence_stream(ctx, 40 if ctx.tier == "quick" else 500, tcases)
     n_scores = 320 if ctx.tier == "quick" else 3000
     mcases, pcases, gcases, rcases, wcases = [], [], [], [], []
     nviol = 0
+    fresh, fresh_checks = None, 0
     fixed = corpus_specs()
     if ctx.tier != "quick":
         fixed += list(exhaustive_specs())
@@ -2447,7 +2807,24 @@ def run(ctx):
                 small = shrink(spec, k, txt)
                 o2 = check_spec(small, want_coq=False)
                 txt2 = next((t for kk, t in o2.problems if signature(kk, t) == signature(k, txt)), txt)
-                r = ctx.violation("%s: %s" % (k, txt2), {"kind": k, "what": txt2, "spec": small})
+                note = ""
+                if fresh_checks < 6:
+                    # in this process module-level state is filled by the scores before: does the shrunk score fail on its own?
+                    fresh_checks += 1
+                    try:
+                        fresh = fresh or Fresh()
+                        sg = signature(k, txt)
+                        if not any(signature(a, b) == sg for a, b, _ in fresh.ask({"spec": small})):
+                            if any(signature(a, b) == sg for a, b, _ in fresh.ask({"spec": spec})):
+                                small = shrink(spec, k, txt, check=lambda sp: fresh.ask({"spec": sp}))
+                                txt2 = next((b for a, b, _ in fresh.ask({"spec": small}) if signature(a, b) == sg), txt)
+                                note = " [shrunk in a fresh interpreter state per candidate: the in-process shrink depended on scores checked before]"
+                            else:
+                                note = (" [NOT reproduced by this score alone in a fresh interpreter: the failure depends on what ran earlier "
+                                        "in the checking process (state kept at module level); the sequence replays give such orders]")
+                    except Exception as ex:
+                        note = " [fresh-interpreter confirmation not available: %r]" % (ex,)
+                r = ctx.violation("%s: %s%s" % (k, txt2, note), {"kind": k, "what": txt2, "spec": small})
                 if r != "known":
                     nviol += 1
         if o.unlisted_diffs:
@@ -2463,6 +2840,8 @@ def run(ctx):
                 ctx.count("ranges:" + st)
             mcases.extend((spec, pid, mi, c) for (pid, mi, c) in o.measure_cases)
             pcases.extend((spec, pid, c) for (pid, c) in o.part_cases)
+    if fresh is not None:
+        fresh.close()
     ctx.log("phase: %d scores through save/load/save and the direct oracles done" % ctx.evaluations)
     hcases = []
     history_stream(ctx, 36 if ctx.tier == "quick" else 400, hcases)
@@ -2602,6 +2981,24 @@ def run(ctx):
                 ctx.count("coq:history_model_drift", len(hfail))
                 ctx.log("MODEL-DRIFT (no violation): on %d of %d history tracks whose direct oracles passed the ids / numbers written are not "
                         "those of Model/C03_Hist.v" % (len(hfail), len(hcases)))
+        # texts through one process (Model/C03_Txt.v): the files of a sequence loaded one after the other
+        ctx.count("coq:text_cases (sequences of files in one process)", len(tcases))
+        if tcases:
+            try:
+                tfail = ctx.coq_failing("txt", "From PV Require Import Model.C03_Txt.", "", [c for (_, c) in tcases], "check_texts", shard=40)
+            except RuntimeError as ex:
+                tfail = None
+                ctx.obligation("correspondence (t): text model evaluation", False, str(ex)[-800:])
+                ctx.violation("Coq could not evaluate the text model: " + str(ex)[-600:], {"error": str(ex)[-1500:]}, no_input=True)
+            if tfail is not None:
+                ctx.obligation("correspondence (t): run (Model/C03_Txt.v: nothing kept between two parses; one direction per comma-separated "
+                               "piece, outer blanks dropped) on the <words> texts of the files a sequence loads one after the other in one "
+                               "process = the raw texts of the directions load_musicxml returned per file, on %d sequences" % len(tcases),
+                               not tfail, tfail[:5])
+                if tfail:
+                    ctx.count("coq:text_model_drift", len(tfail))
+                    ctx.log("MODEL-DRIFT (no violation): on %d of %d sequences whose direct oracles passed the raw texts loaded are not "
+                            "those of Model/C03_Txt.v" % (len(tfail), len(tcases)))
         # wedge / dashes numbers (do_directions / _handle_direction)
         ctx.count("coq:wedge_cases (parts x {wedge, dashes})", len(wcases))
         wdefs = ("Definition pv_whyp (c : list wevent * list (Z * bool) * list (Z * Z)) : bool :=\n"
@@ -2641,6 +3038,17 @@ def replay(obj):
         probs = run_history(h, stop_at_first=False)
         for k, t, st in probs:
             print("PROBLEM at step %d: %s: %s" % (st, k, t))
+        if not probs:
+            print("no problem reproduced on this tree")
+        return 0
+    if r.get("sequence"):
+        q = r["sequence"]
+        for i, sp in enumerate(q["scores"]):
+            print("score %d:" % i, json.dumps([o for o in sp["parts"][0]["objs"] if o["k"] not in ("note", "ts")]), "measures", sp["parts"][0]["measures"])
+        print("ops:", json.dumps(q["ops"]))
+        probs = run_sequence(q, stop_at_first=False)
+        for k, t, st in probs:
+            print("PROBLEM at step %d (%s score %d): %s: %s" % (st, q["ops"][st][0], q["ops"][st][1], k, t))
         if not probs:
             print("no problem reproduced on this tree")
         return 0
